@@ -10,6 +10,8 @@
 (*   inp   input value before    inp2   the same object after the call     *)
 (*   args  arguments before      args2  the same objects after the call    *)
 (*   out   what the filter returned (materialised) or X(exception class)   *)
+(*   x     alias / inp3: identity of a list result and the input after the *)
+(*         result was mutated (see C22_ResultFresh)                        *)
 (* Every record is a one-step trace: Step consumes record tid+1 and        *)
 (* evaluates Contract on it.  Rejected records are collected with the      *)
 (* reason and the result the specification expects, and printed as JSON    *)
@@ -45,11 +47,18 @@ Expected(r) ==
 
 C22_ResultOK(r) == VEq(r.out, Expected(r))
 C22_ArgsUnmodified(r) == ArgsIntact(r)
-Contract(r) == C22_ResultOK(r) /\ C22_ArgsUnmodified(r)
+\* Object identity of the result (SeqFilters!BuildsNewList, modelled in SeqCalls.tla): when the
+\* result object is a mutable list the harness records  x.alias = "the result IS the input
+\* object"  and  x.inp3 = the input after a probe item was appended to the result.
+C22_ResultFresh(r) ==
+    ("alias" \in DOMAIN r.x /\ BuildsNewList(r.f)) =>
+        /\ ~r.x.alias.v
+        /\ VEq(r.x.inp3, r.inp)
+Contract(r) == C22_ResultOK(r) /\ C22_ArgsUnmodified(r) /\ C22_ResultFresh(r)
 
 \* classification of a rejected record (the fingerprint of known findings)
 Why(r) ==
-    IF C22_ResultOK(r) THEN "args-modified"
+    IF C22_ResultOK(r) THEN (IF C22_ArgsUnmodified(r) THEN "result-aliases-input" ELSE "args-modified")
     ELSE IF r.f = "slice" /\ r.args.fill.t # "n" /\ Len(r.inp.v) % r.args.n.v = 0
             /\ VEq(r.out, L(SliceEvenFillQuirk(r.inp.v, r.args.n.v, r.args.fill)))
          THEN "slice-fill-nothing-missing"
